@@ -219,6 +219,201 @@ class MatlabExpr:
         raise ValueError("unexpected token %r" % t)
 
 
+# ---------------------------------------------------------------- second family: containers, members, casts, switch (Computed2.tla)
+def fmt2(e):
+    k = e["k"]
+    if k == "fld":
+        return e["n"]
+    if k == "lit":
+        return str(e["v"])
+    if k == "str":
+        return '"%s"' % e["s"]
+    if k == "mem":
+        return "%s.%s" % (fmt2(e["e"]), e["n"])
+    if k == "size":
+        return "size(%s)" % fmt2(e["e"])
+    if k == "sizedim":
+        return "size(%s, %s)" % (fmt2(e["e"]), fmt2(e["a"]))
+    if k == "dimindex":
+        return "dimensionIndex(%s, %s)" % (fmt2(e["e"]), fmt2(e["a"]))
+    if k == "dimcount":
+        return "dimensionCount(%s)" % fmt2(e["e"])
+    if k == "idx":
+        return "%s[%s]" % (fmt2(e["e"]), ", ".join(("%s:%s" % (a["name"], fmt2(a["e"]))) if a["name"] else fmt2(a["e"]) for a in e["args"]))
+    if k == "cast":
+        inner = fmt2(e["e"])
+        return "%s as %s" % (inner if e["e"]["k"] != "bin" else "(" + inner + ")", e["p"])
+    if k == "bin":
+        def side(x):
+            t = fmt2(x)
+            return "(" + t + ")" if x["k"] in ("bin", "cast") else t
+        return "%s %s %s" % (side(e["l"]), e["op"], side(e["r"]))
+    raise ValueError(k)
+
+
+def field_yaml(name, e, indent="    "):
+    if e["k"] != "switch":
+        return ["%s%s: %s" % (indent, name, fmt2(e))]
+    out = ["%s%s:" % (indent, name), "%s  !switch %s:" % (indent, fmt2(e["t"]))]
+    for cs in e["cases"]:
+        pat = cs["pat"] + ((" " + cs["var"]) if cs["var"] else "")
+        if cs["body"]["k"] == "switch":
+            sub = field_yaml(pat, cs["body"], indent + "    ")
+            out += sub
+        else:
+            out.append("%s    %s: %s" % (indent, pat, fmt2(cs["body"])))
+    return out
+
+
+def spec_number(v):
+    if "i" in v:
+        return Fraction(v["i"])
+    if "h" in v:
+        return Fraction(v["h"], 2)
+    raise ValueError(v)
+
+
+PY2_DRIVER = r"""
+import sys, json, importlib
+from fractions import Fraction
+import numpy as np
+sys.path.insert(0, sys.argv[1])
+mod = importlib.import_module(sys.argv[2])
+spec = json.load(open(sys.argv[3]))
+U = mod.Int32OrFloat32
+def conv(name, v):
+    if "null" in v:
+        return None
+    if "tag" in v:
+        return U.Int32(v["v"]["i"]) if v["tag"] == "int" else U.Float32(v["v"]["h"] / 2)
+    if "i" in v:
+        return v["i"]
+    if "h" in v:
+        return v["h"] / 2
+    raise ValueError(v)
+objs = []
+for val in spec["valuations"]:
+    objs.append(mod.R2(arr=np.array([[1, 2, 3], [4, 5, 6]], dtype=np.int32), vec=[4, 5, 6], vv=[[1], [2, 3]], ni=1, ns="y",
+                       inner=mod.Inner(q=11, w=1), mp={"a": 1, "b": 2}, f=1.5, i=7, k=40, two=2.0,
+                       opt=conv("opt", val["opt"]), un=conv("un", val["un"]), nun=conv("nun", val["nun"])))
+out = []
+for j, o in enumerate(objs):
+    row = {}
+    for cid in spec["ids"]:
+        try:
+            v = getattr(o, cid)()
+            fr = Fraction(float(v)) if isinstance(v, (float, np.floating)) else Fraction(int(v))
+            row[cid] = [str(fr.numerator), str(fr.denominator)]
+        except Exception as ex:
+            row[cid] = "%s: %s" % (type(ex).__name__, ex)
+    out.append(row)
+with mod.BinaryP2Writer(sys.argv[4]) as w:
+    w.write_r(objs)
+json.dump(out, open(sys.argv[5], "w"))
+"""
+
+CPP2_HEAD = r"""
+#include "binary/protocols.h"
+#include <cstdio>
+#include <type_traits>
+template <class T> void show(const char* id, int item, T v) {
+  if constexpr (std::is_floating_point_v<T>) std::printf("%d %s %.17g\n", item, id, (double)v);
+  else if constexpr (std::is_signed_v<T>) std::printf("%d %s %lld\n", item, id, (long long)v);
+  else std::printf("%d %s %llu\n", item, id, (unsigned long long)v);
+}
+int main(int argc, char** argv) {
+  cg::binary::P2Reader reader(argv[1]);
+  cg::R2 r;
+  int item = 0;
+  while (reader.ReadR(r)) {
+"""
+
+
+def second_family(c, sc, yardl, home):
+    wd = os.path.join(sc, "tlc2")
+    os.makedirs(wd)
+    env = {"VERIF_OUT": wd + "/c.ndjson", "VERIF_OUT_VALS": wd + "/v.ndjson", "VERIF_OUT_BASE": wd + "/b.ndjson"}
+    res = tlc_eval("Computed2", timeout=900, workdir=wd, env=env)
+    c.add_tlc(res)
+    cases = [json.loads(l) for l in open(env["VERIF_OUT"]) if l.strip()]
+    vals = [json.loads(l) for l in open(env["VERIF_OUT_VALS"]) if l.strip()]
+    cases.sort(key=lambda x: json.dumps(x["e"], sort_keys=True))
+    c.cov["states"] += len(cases) * len(vals)
+    root = os.path.join(sc, "fam2")
+    mdir = os.path.join(root, "model")
+    os.makedirs(mdir)
+    open(os.path.join(mdir, "_package.yml"), "w").write(
+        "namespace: Cg\ncpp:\n  sourcesOutputDir: ../cpp\n  generateHDF5: false\n  generateCMakeLists: false\n  generateNDJson: false\n"
+        "  overrideArrayHeader: yardl_shim_ndarray.h\npython:\n  outputDir: ../py\n  generateNDJson: false\nmatlab:\n  outputDir: ../matlab\n")
+    lines = ["Inner: !record", "  fields:", "    q: int", "    w: int", "R2: !record", "  fields:", "    arr: int[x, y]", "    vec: int*", "    vv: int**",
+             "    ni: int", "    ns: string", "    inner: Inner", "    mp: string->int", "    f: float", "    i: int", "    k: long", "    two: float",
+             "    opt: int?", "    un: [int, float]", "    nun: [null, int, float]", "  computedFields:"]
+    for n, x in enumerate(cases):
+        x["id"] = "d%d" % n
+        x["text"] = "\n".join(field_yaml(x["id"], x["e"]))
+        lines += field_yaml(x["id"], x["e"])
+    lines += ["P2: !protocol", "  sequence:", "    r: !stream", "      items: R2"]
+    model = "\n".join(lines) + "\n"
+    open(os.path.join(mdir, "model.yml"), "w").write(model)
+    rc, o, e = run([yardl, "generate"], cwd=mdir, env=yardl_env(home), timeout=300)
+    if rc != 0:
+        txt = re.sub(r"\x1b\[[0-9;]*m", "", e + o)
+        c.violation("C19:containers:rejected", "yardl rejects a model whose computed fields use only documented expression forms: " + txt[-400:],
+                    {"model": model, "output": txt[-3000:]})
+        return
+    # Python: evaluate and write the stream
+    specf = os.path.join(root, "spec.json")
+    json.dump({"valuations": vals, "ids": [x["id"] for x in cases]}, open(specf, "w"))
+    drv = os.path.join(root, "py2.py")
+    open(drv, "w").write(PY2_DRIVER)
+    binf, pyout = os.path.join(root, "items.bin"), os.path.join(root, "py.json")
+    rc, o, e = run([PY, drv, os.path.join(root, "py"), "cg", specf, binf, pyout], timeout=300)
+    if rc != 0:
+        c.violation("C19:containers:python", "the generated Python for the container expressions cannot be used: " + (e or o)[-400:], {"model": model, "error": (e or o)[-3000:]})
+        return
+    pyres = json.load(open(pyout))
+    # C++: read the stream, evaluate
+    gen = os.path.join(root, "cpp")
+    shutil.copy(os.path.join(drivers.SHIMS, "yardl_shim_ndarray.h"), os.path.join(gen, "yardl", "yardl_shim_ndarray.h"))
+    body = [CPP2_HEAD] + ['    show("%s", item, r.%s());' % (x["id"], "D" + x["id"][1:]) for x in cases] + ["    item++;", "  }", "  reader.Close();", "  return 0;", "}"]
+    open(os.path.join(gen, "eval2.cc"), "w").write("\n".join(body))
+    exe = os.path.join(root, "eval2")
+    rc, o, e = run(["g++", "-std=c++17", "-O0", "-I", drivers.SHIMS, "-I", drivers.THIRD, "-I", gen, os.path.join(gen, "eval2.cc"), os.path.join(gen, "types.cc"),
+                    os.path.join(gen, "protocols.cc"), os.path.join(gen, "binary", "protocols.cc"), "-o", exe], timeout=1800)
+    cpp = {}
+    if rc != 0:
+        c.violation("C19:containers:cpp_compile", "the generated C++ for the container expressions does not compile: " + e[-500:], {"model": model, "error": e[-4000:]})
+    else:
+        rc, o, e = run([exe, binf], timeout=120)
+        if rc != 0:
+            c.violation("C19:containers:cpp_run", "the C++ evaluation of the container expressions fails (rc=%s): %s" % (rc, (e or "")[-300:]), {"model": model, "error": e})
+        for line in o.splitlines():
+            p = line.split()
+            if len(p) == 3:
+                cpp[(int(p[0]), p[1])] = p[2]
+    for x in cases:
+        kind = x["e"]["k"] + (":" + x["e"]["t"]["n"] if x["e"]["k"] == "switch" else "")
+        for j, expv in enumerate(x["values"]):
+            exp = spec_number(expv)
+            c.cov["traces_validated_against_impl"] += 1
+            c.count(("fam2", kind), nontrivial=True)
+            pv = pyres[j][x["id"]]
+            if isinstance(pv, str) or Fraction(int(pv[0]), int(pv[1])) != exp:
+                c.violation("C19:value:py-containers:%s" % kind, "Python evaluates computed field\n%s\nto %s for valuation %s; the specification gives %s" % (
+                    x["text"], pv if isinstance(pv, str) else Fraction(int(pv[0]), int(pv[1])), json.dumps(vals[j]), exp),
+                    {"field": x["text"], "valuation": vals[j], "expected": str(exp), "python": pv})
+            if cpp:
+                cv = cpp.get((j, x["id"]))
+                try:
+                    got = Fraction(cv) if cv is not None and "." not in cv and "e" not in cv else (Fraction(float(cv)) if cv is not None else None)
+                except ValueError:
+                    got = None
+                if got != exp:
+                    c.violation("C19:value:cpp-containers:%s" % kind, "C++ evaluates computed field\n%s\nto %s for valuation %s; the specification gives %s" % (
+                        x["text"], cv, json.dumps(vals[j]), exp), {"field": x["text"], "valuation": vals[j], "expected": str(exp), "cpp": cv})
+    c.cov["container_expressions"] = len(cases)
+
+
 def main():
     c = Check("C19", "model_checking")
     sc = scratch("verif-c19-")
@@ -480,6 +675,7 @@ def main():
         c.cov["model_type_difference_kinds"] = sorted(kinds.items())[:40]
     for x in cases[:4]:
         c.sample({"expression": x["text"], "defined": x["defined"], "value": x["value"], "model_type": x["type"]})
+    second_family(c, sc, yardl, home)
     c.assumptions += ["the promotion table is not documented (only '** yields a float64'); Computed.tla's numeric tower is a model, differences are "
                       "reported as MODEL-DRIFT; verdicts come from operand-order independence, agreement between C++ and Python declared types, "
                       "'** on integers is float64' and values",
